@@ -77,7 +77,7 @@ let () =
     | ["merkle"; ls] ->
         let (r, ps) = merkle_new (fun d -> TL d) (fun a b -> TN (a, b)) d0 (shards_of_arg ls) in
         Printf.printf "root %s\nproofs %s\n" (show_term r) (String.concat "|" (List.map show_proof ps))
-    | ["case"; k; par; local; m; shs; masks] ->
+    | ["case"; k; par; local; nonce; m; shs; masks] ->
         let k = int_of_string k and par = int_of_string par and local = int_of_string local in
         let real = shards_of_arg shs in
         let parity_tbl = drop k real in
@@ -85,7 +85,7 @@ let () =
         let msg = bytes_of_hex m in
         let enc = encode rs_parity msg (nat_of_int k) (nat_of_int par) in
         let units = create (fun d -> TL d) (fun a b -> TN (a, b)) d0 t_sign rs_parity raw code_copy_nonce
-                      (n_of_int 2) (junk32 1) (n_of_int 7) msg (nat_of_int k) (nat_of_int par) in
+                      (n_of_int 2) (junk32 1) (n_of_int (int_of_string nonce)) msg (nat_of_int k) (nat_of_int par) in
         Printf.printf "padded %s\n" (hex_of_bytes (pad msg (n_of_int k)));
         Printf.printf "enc %s\n" (String.concat "," (List.map hex_of_bytes enc));
         (match units with
